@@ -291,4 +291,9 @@ def find_comparators(facts):
                     for x in walk_expr(a):
                         if x.get('k') == 'lambda' and x['fn'] in lambdas:
                             out.append((lambdas[x['fn']], e['callee'], f))
+                        elif x.get('k') == 'ref' and x.get('dk') == 'func' and x.get('in_repo'):
+                            # a named function handed to the algorithm
+                            named = [g for g in facts.functions if g['q'] == x.get('q') and g.get('body') is not None and len(g.get('params', [])) == 2 and g['tmpl'] in ('none', 'inst')]
+                            if len(named) == 1:
+                                out.append((named[0], e['callee'], f))
     return out
